@@ -1,8 +1,1016 @@
-//! stub — to be implemented
-use crate::common::{Ctx, Report};
+//! C20 — a configuration file means exactly what it declares, however large.
+//!
+//! Direct-API lab replaying `load_static_config` (bin/src/command/requests.rs): generated TOML
+//! file -> `Config::load_from_path` -> `generate_config_messages()` -> every message dispatched
+//! on a fresh `ConfigState` (a dispatch error there means the main process reports it and does
+//! *not* forward the message to the workers: the entry is dropped).
+//!
+//! Oracle: the generator builds an abstract model first (`c20_configfile/model.rs`,
+//! `generate.rs`), renders TOML from it, and `check.rs` derives the expected state from the model
+//! plus the defaults transcribed from doc/configure.md, doc/health_checks.md and the comments of
+//! bin/config.toml. Checks: (1) no message rejected; (2) declared == loaded; (3) loading the file
+//! again over the state changes nothing; (4) files violating exactly one documented constraint
+//! are rejected at load time; (5) no panic at any size.
 
-pub fn run(_ctx: &Ctx) -> Report {
-    let mut rep = Report::new("exploration", "not implemented");
-    rep.broken("check not implemented yet");
+#[path = "c20_configfile/check.rs"]
+mod check;
+#[path = "c20_configfile/generate.rs"]
+mod generate;
+#[path = "c20_configfile/model.rs"]
+mod model;
+
+use std::{
+    collections::BTreeSet,
+    io::Write as _,
+    net::SocketAddr,
+    path::{Path, PathBuf},
+};
+
+use serde_json::{Value, json};
+use sozu_command_lib::{config::Config, proto::command::request::RequestType, state::ConfigState};
+
+use self::{
+    check::{Expect, Tally, compare},
+    generate::*,
+    model::*,
+};
+use crate::common::{
+    Ctx, Report, Rng,
+    par::{guard, par_cases_named},
+};
+
+const STREAM: u64 = 20;
+
+fn bucket(n: usize) -> &'static str {
+    match n {
+        0 => "msgs:0",
+        1..=15 => "msgs:1-15",
+        16..=127 => "msgs:16-127",
+        128..=254 => "msgs:128-254",
+        255 => "msgs:255",
+        256 => "msgs:256",
+        257 => "msgs:257",
+        258..=1023 => "msgs:258-1023",
+        1024..=65_534 => "msgs:1024-65534",
+        65_535 => "msgs:65535",
+        65_536 => "msgs:65536",
+        _ => "msgs:>65536",
+    }
+}
+
+fn request_name(r: &Option<RequestType>) -> String {
+    let s = format!("{r:?}");
+    let s = s.trim_start_matches("Some(");
+    s.split(|c: char| !c.is_alphanumeric()).next().unwrap_or("?").to_owned()
+}
+
+fn error_kind(e: &sozu_command_lib::state::StateError) -> String {
+    let s = format!("{e:?}");
+    s.split(|c: char| !c.is_alphanumeric()).next().unwrap_or("?").to_owned()
+}
+
+struct Run<'a> {
+    ctx: &'a Ctx,
+    dir: &'a Path,
+    label: &'a str,
+    case: u64,
+}
+
+impl Run<'_> {
+    fn thread_dir(&self) -> PathBuf {
+        let t = std::thread::current();
+        let d = self.dir.join(t.name().unwrap_or("main").replace('/', "_"));
+        let _ = std::fs::create_dir_all(&d);
+        d
+    }
+
+    fn witness(&self, m: &Model, toml: &str, extra: Value) -> Value {
+        let mut text = toml.to_owned();
+        let truncated = text.len() > 6_000;
+        if truncated {
+            let mut cut = 6_000;
+            while !text.is_char_boundary(cut) {
+                cut -= 1;
+            }
+            text.truncate(cut);
+        }
+        json!({"case": self.case, "label": self.label, "seed": self.ctx.seed, "tier": self.ctx.tier.name(),
+            "toml": text, "toml_truncated": truncated, "toml_bytes": toml.len(),
+            "model": {"listeners": m.listeners.len(), "clusters": m.clusters.len(),
+                "frontends": m.clusters.iter().map(|c| c.frontends.len()).sum::<usize>(),
+                "backends": m.clusters.iter().map(|c| c.backends.len()).sum::<usize>(),
+                "predicted_messages": predicted_messages(m)},
+            "observed": extra})
+    }
+}
+
+enum Loaded {
+    /// `load_from_path` returned Err
+    Rejected(String),
+    /// loaded; the state after the first load
+    Accepted,
+    /// a panic was reported (or the harness broke)
+    Aborted,
+}
+
+/// write the certificate copies some files reference
+fn write_cert_copies(dir: &Path) {
+    for (i, c) in cert_pool().iter().enumerate() {
+        let _ = std::fs::write(dir.join(format!("c{i}.pem")), &c.cert);
+        let _ = std::fs::write(dir.join(format!("k{i}.pem")), &c.key);
+        if let Some(ch) = &c.chain {
+            let _ = std::fs::write(dir.join(format!("ch{i}.pem")), ch);
+        }
+    }
+}
+
+/// render, write, load, replay on a fresh state, compare, reload. `prefix` namespaces the
+/// signatures of constraint-neighbour classes. Returns what the loader said.
+fn pipeline(run: &Run, rep: &mut Report, rng: &mut Rng, m: &Model, class: Option<&str>, allow_implicit: bool, judge_state: bool) -> (Loaded, String) {
+    let mut problems: Vec<(String, String, Value)> = Vec::new();
+    let out = pipeline_inner(run, rep, rng, m, allow_implicit, judge_state, &mut problems);
+    match class {
+        None => {
+            for (sig, what, extra) in problems {
+                rep.violation(&sig, &what, run.witness(m, &out.1, extra));
+            }
+        }
+        Some(class) => {
+            // one signature per neighbour class: the follow-up damage of one rejected message
+            // (missing cluster, orphan frontends, ...) is the same defect
+            if let Some((_, what, _)) = problems.first() {
+                let all: Vec<String> = problems.iter().map(|(s, w, _)| format!("{s}: {w}")).collect();
+                rep.violation(
+                    &format!("neighbour/{class}/partial_configuration"),
+                    &format!("the loader accepted a file with '{class}' and the result is a partial configuration: {what} ({} finding(s) in all)", all.len()),
+                    run.witness(m, &out.1, json!({"class": class, "findings": all})),
+                );
+            }
+        }
+    }
+    out
+}
+
+fn pipeline_inner(run: &Run, rep: &mut Report, rng: &mut Rng, m: &Model, allow_implicit: bool, judge_state: bool, problems: &mut Vec<(String, String, Value)>) -> (Loaded, String) {
+    let prefix = "";
+    let tdir = run.thread_dir();
+    if m.cert_use.iter().any(|u| u.copied) && !tdir.join("c0.pem").exists() {
+        write_cert_copies(&tdir);
+    }
+    let tdir_s = tdir.to_string_lossy().to_string();
+    let toml = m.render(rng, &Paths { copy_dir: &tdir_s });
+    let path = tdir.join(format!("{}-{}.toml", run.label, run.case));
+    if let Err(e) = std::fs::write(&path, &toml) {
+        rep.inconclusive(&format!("cannot write the generated file: {e}"));
+        return (Loaded::Aborted, toml);
+    }
+    let path_s = path.to_string_lossy().to_string();
+    let predicted = predicted_messages(m);
+    rep.obs("files", 1);
+    rep.obs_max("file_bytes", toml.len() as u64);
+
+    let sozu_panic = |rep: &mut Report, stage: &str, p: crate::common::par::PanicRec| {
+        if p.in_sozu() {
+            let sig = if p.location.contains("command/src/config.rs") && p.message.contains("attempt to add with overflow") {
+                "panic/generate_config_messages/u8_message_counter_overflow".to_owned()
+            } else {
+                p.signature()
+            };
+            rep.obs(&format!("panics_in_sozu.{stage}"), 1);
+            rep.violation(
+                &format!("{prefix}{sig}"),
+                &format!("sozu panicked in {stage}: {} at {} (file with {predicted} expected messages)", p.message, p.location),
+                run.witness(m, &toml, json!({"stage": stage, "panic": p.message, "location": p.location})),
+            );
+        } else {
+            rep.broken(&format!("harness panic in {} {} ({stage}): {} at {}", run.label, run.case, p.message, p.location));
+        }
+    };
+
+    // ---- load
+    let config = match guard(|| Config::load_from_path(&path_s)) {
+        Err(p) => {
+            sozu_panic(rep, "load_from_path", p);
+            let _ = std::fs::remove_file(&path);
+            return (Loaded::Aborted, toml);
+        }
+        Ok(Err(e)) => {
+            let _ = std::fs::remove_file(&path);
+            return (Loaded::Rejected(e.to_string()), toml);
+        }
+        Ok(Ok(c)) => c,
+    };
+    rep.obs("files_loaded", 1);
+    rep.obs(bucket(predicted), 1);
+    if predicted > 255 {
+        rep.obs("files_over_255_messages", 1);
+    }
+    // ---- messages
+    let msgs = match guard(|| config.generate_config_messages()) {
+        Err(p) => {
+            if predicted > 255 {
+                rep.obs("files_over_255_messages_masked_by_panic", 1);
+            }
+            sozu_panic(rep, "generate_config_messages", p);
+            let _ = std::fs::remove_file(&path);
+            return (Loaded::Accepted, toml);
+        }
+        Ok(Err(e)) => {
+            problems.push((
+                format!("{prefix}generate_config_messages/error_on_accepted_file"),
+                format!("the loader accepted the file but generate_config_messages failed: {e}"),
+                json!({"error": e.to_string()}),
+            ));
+            let _ = std::fs::remove_file(&path);
+            return (Loaded::Accepted, toml);
+        }
+        Ok(Ok(v)) => v,
+    };
+    rep.obs("message_lists_generated", 1);
+    rep.obs("messages_total", msgs.len() as u64);
+    rep.obs_max("messages_in_one_file", msgs.len() as u64);
+    if msgs.len() != predicted {
+        rep.obs("predicted_message_count_differs", 1);
+    }
+    if msgs.len() > 255 {
+        rep.obs("files_over_255_messages_fully_checked", 1);
+    }
+    let ids: BTreeSet<&str> = msgs.iter().map(|w| w.id.as_str()).collect();
+    if ids.len() != msgs.len() {
+        problems.push((
+            format!("{prefix}generate_config_messages/duplicate_message_ids"),
+            format!("{} messages carry only {} distinct ids", msgs.len(), ids.len()),
+            json!({"messages": msgs.len(), "distinct_ids": ids.len()}),
+        ));
+    }
+    // ---- first load on a fresh instance (what load_static_config does)
+    let mut st = ConfigState::new();
+    let replay = guard(|| {
+        let mut rejected: Vec<(String, String, String)> = Vec::new();
+        for w in &msgs {
+            if let Err(e) = st.dispatch(&w.content) {
+                rejected.push((request_name(&w.content.request_type), error_kind(&e), e.to_string()));
+            }
+        }
+        rejected
+    });
+    let rejected = match replay {
+        Err(p) => {
+            sozu_panic(rep, "dispatch", p);
+            let _ = std::fs::remove_file(&path);
+            return (Loaded::Accepted, toml);
+        }
+        Ok(r) => r,
+    };
+    rep.obs("messages_dispatched", msgs.len() as u64);
+    let mut seen = BTreeSet::new();
+    for (req, kind, text) in &rejected {
+        rep.obs("messages_rejected_by_fresh_instance", 1);
+        if seen.insert((req.clone(), kind.clone())) {
+            problems.push((
+                format!("{prefix}dispatch_rejected/{req}/{kind}"),
+                format!("the loader accepted the file but a fresh instance rejects its {req} message ({text}); load_static_config then skips the message: the entry never reaches the workers"),
+                json!({"rejected": rejected.len(), "first": text}),
+            ));
+        }
+    }
+    // ---- declared == loaded
+    if judge_state {
+        let mut t = Tally::default();
+        compare(&Expect { model: m, allow_implicit_listeners: allow_implicit }, &st, &mut t);
+        for (k, n) in &t.counts {
+            rep.obs(k, *n);
+        }
+        rep.obs("states_compared_with_model", 1);
+        let mut seen = BTreeSet::new();
+        for f in &t.findings {
+            if seen.insert(f.sig.clone()) {
+                problems.push((format!("{prefix}{}", f.sig), f.what.clone(), json!({"findings": t.findings.iter().take(8).map(|f| format!("{}: {}", f.sig, f.what)).collect::<Vec<_>>()})));
+            }
+        }
+    }
+    // ---- load the same file again over the state it produced
+    let second = guard(|| -> Result<(ConfigState, usize), String> {
+        let c2 = Config::load_from_path(&path_s).map_err(|e| e.to_string())?;
+        let m2 = c2.generate_config_messages().map_err(|e| e.to_string())?;
+        let mut s2 = st.clone();
+        let mut errs = 0;
+        for w in &m2 {
+            if s2.dispatch(&w.content).is_err() {
+                errs += 1;
+            }
+        }
+        Ok((s2, errs))
+    });
+    match second {
+        Err(p) => sozu_panic(rep, "reload", p),
+        Ok(Err(e)) => problems.push((
+            format!("{prefix}reload/second_load_fails"),
+            format!("the same file loaded a second time is refused: {e}"),
+            json!({"error": e}),
+        )),
+        Ok(Ok((mut s2, errs))) => {
+            rep.obs("idempotence_checks", 1);
+            rep.obs("reload_messages_answered_with_error_state_unchanged_is_fine", errs as u64);
+            let mut s1 = st.clone();
+            s1.request_counts.clear();
+            s2.request_counts.clear();
+            let diff = s1.diff(&s2);
+            if s1 != s2 || !diff.is_empty() {
+                let parts = [
+                    ("clusters", s1.clusters != s2.clusters),
+                    ("backends", s1.backends != s2.backends),
+                    ("http_listeners", s1.http_listeners != s2.http_listeners),
+                    ("https_listeners", s1.https_listeners != s2.https_listeners),
+                    ("tcp_listeners", s1.tcp_listeners != s2.tcp_listeners),
+                    ("udp_listeners", s1.udp_listeners != s2.udp_listeners),
+                    ("http_fronts", s1.http_fronts != s2.http_fronts),
+                    ("https_fronts", s1.https_fronts != s2.https_fronts),
+                    ("tcp_fronts", s1.tcp_fronts != s2.tcp_fronts),
+                    ("udp_fronts", s1.udp_fronts != s2.udp_fronts),
+                    ("certificates", s1.certificates != s2.certificates),
+                ];
+                let changed: Vec<&str> = parts.iter().filter(|(_, c)| *c).map(|(n, _)| *n).collect();
+                let what = if changed.is_empty() { "diff_not_empty".to_owned() } else { changed.join("+") };
+                problems.push((
+                    format!("{prefix}reload/state_changed/{what}"),
+                    format!("loading the same file again over the state it produced changed {what}; diff(first, second) has {} request(s)", diff.len()),
+                    json!({"changed": changed, "diff_requests": diff.iter().take(5).map(|r| request_name(&r.request_type)).collect::<Vec<_>>()}),
+                ));
+            }
+        }
+    }
+    let _ = std::fs::remove_file(&path);
+    (Loaded::Accepted, toml)
+}
+
+fn shape(m: &Model, extra: &[u8]) -> Vec<u8> {
+    let lg = |n: usize| (usize::BITS - n.leading_zeros()) as u8;
+    let mut s = vec![lg(m.listeners.len()), lg(m.clusters.len()), lg(m.clusters.iter().map(|c| c.frontends.len()).sum()), lg(m.clusters.iter().map(|c| c.backends.len()).sum()), lg(predicted_messages(m))];
+    let mut protos = 0u8;
+    for l in &m.listeners {
+        protos |= 1 << (l.proto as u8);
+    }
+    s.push(protos);
+    s.push(m.global.len() as u8);
+    s.push(m.listeners.iter().map(|l| l.opts.len()).sum::<usize>().min(255) as u8);
+    s.push(m.clusters.iter().map(|c| c.opts.len()).sum::<usize>().min(255) as u8);
+    s.extend_from_slice(extra);
+    s
+}
+
+// ---------------------------------------------------------------------------------------------
+// workload 1: valid files
+
+fn valid_case(run: &Run, rep: &mut Report) {
+    let mut rng = Rng::for_case(run.ctx.seed, STREAM, run.case);
+    let thorough = run.ctx.tier.pick(false, true);
+    let density = match rng.below(6) {
+        0 => 0,
+        1 => 100,
+        _ => 10 + rng.below(80),
+    };
+    let class = rng.below(100);
+    let big = if thorough { 10 } else { 1 };
+    let (sz, target): (Sizes, Option<usize>) = match class {
+        0..=9 => (Sizes { listeners: rng.usize_below(3), clusters: rng.usize_below(3), max_fronts: 2, max_backends: 2, density }, None),
+        10..=49 => (Sizes { listeners: 1 + rng.usize_below(6), clusters: rng.usize_below(7), max_fronts: 4, max_backends: 4, density }, None),
+        50..=74 => {
+            let t = 253 + rng.usize_below(7);
+            (Sizes { listeners: 2 + rng.usize_below(30), clusters: 1 + rng.usize_below(20), max_fronts: 5, max_backends: 5, density: density.min(60) }, Some(t))
+        }
+        75..=92 => (Sizes { listeners: rng.usize_below(200 * big), clusters: rng.usize_below(150 * big), max_fronts: 1 + rng.usize_below(20), max_backends: 1 + rng.usize_below(20), density: density.min(50) }, None),
+        _ => match rng.below(3) {
+            0 => (Sizes { listeners: 300 * big + rng.usize_below(300 * big), clusters: 2, max_fronts: 3, max_backends: 3, density: density.min(40) }, None),
+            1 => (Sizes { listeners: 4, clusters: 1 + rng.usize_below(3), max_fronts: 500 * big, max_backends: 3, density: density.min(40) }, None),
+            _ => (Sizes { listeners: 2, clusters: 1 + rng.usize_below(3), max_fronts: 2, max_backends: 800 * big.min(3), density: density.min(40) }, None),
+        },
+    };
+    let mut m = valid_model(&mut rng, sz);
+    let mut target = target;
+    if thorough && class >= 99 && run.case % 20 == 0 {
+        target = Some(65_533 + rng.usize_below(6));
+    }
+    if let Some(t) = target {
+        bulk_towards(&mut rng, &mut m, t);
+        steer_to(&mut rng, &mut m, t);
+    }
+    let (loaded, toml) = pipeline(run, rep, &mut rng, &m, None, false, true);
+    match loaded {
+        Loaded::Rejected(e) => {
+            // the generator only emits documented grammar: a refusal is reported, but as its own
+            // class (the statement quantifies over accepted files; a refused valid file is not a
+            // refutation of it) — counted, sampled, never a violation
+            rep.obs("valid_files_refused_by_loader", 1);
+            rep.sample(json!({"case": run.case, "label": run.label, "refused_valid_file": e, "toml_head": toml.chars().take(1500).collect::<String>()}));
+        }
+        Loaded::Accepted => rep.obs("valid_files_accepted", 1),
+        Loaded::Aborted => {}
+    }
+    rep.case_bytes(&shape(&m, &[0]), !m.listeners.is_empty() && !m.clusters.is_empty());
+    if run.case < 2 {
+        rep.sample(json!({"case": run.case, "label": run.label, "toml": toml.chars().take(3000).collect::<String>()}));
+    }
+}
+
+/// cheap coarse growth (backends in one cluster) so that steering stays linear for big targets
+fn bulk_towards(rng: &mut Rng, m: &mut Model, target: usize) {
+    let p = predicted_messages(m);
+    if p + 64 >= target {
+        return;
+    }
+    let mut todo = target - p - 48;
+    // spread over many clusters: sozu's add_backend re-sorts the cluster's backend list on every
+    // add, a single cluster with 65 000 backends costs minutes without telling anything new
+    let spread = if todo > 2_000 { 96 } else { 1 };
+    let first = m.clusters.len();
+    for k in 0..spread {
+        if todo > 1 {
+            m.clusters.push(Cluster::new(format!("bulk{k}"), k % 2 == 0));
+            todo -= 1;
+        }
+    }
+    if m.clusters.is_empty() {
+        return;
+    }
+    let n = m.clusters.len() - first.min(m.clusters.len() - 1);
+    let mut g = Gen::new(rng, 20);
+    for i in 0..todo {
+        let ci = m.clusters.len() - 1 - (i % n);
+        let b = g.backend(None);
+        m.clusters[ci].backends.push(b);
+    }
+}
+
+// ---------------------------------------------------------------------------------------------
+// workload 2: exhaustive sweep of the total message count across the 8-bit and 16-bit boundaries
+
+fn sweep_model(rng: &mut Rng, total: usize, shape: u64) -> Model {
+    let mut m = Model::default();
+    for _ in 0..CERT_FILES.len() {
+        m.cert_use.push(CertUse::default());
+    }
+    let mut g = Gen::new(rng, 0);
+    match shape {
+        0 => {
+            // backends only: one cluster (64 clusters for the 16-bit boundary: sozu re-sorts a
+            // cluster's backend list on every add), k + (total - k) messages
+            let k = if total > 2_000 { 64 } else { 1.min(total) };
+            for i in 0..k {
+                m.clusters.push(Cluster::new(format!("only{i}"), i % 2 == 0));
+            }
+            for i in 0..total - k {
+                let b = g.backend(None);
+                m.clusters[i % k].backends.push(b);
+            }
+        }
+        1 => {
+            // listeners only, activated: 2 per listener (+1 metrics message when odd)
+            for _ in 0..total / 2 {
+                let a = g.addr();
+                let p = *g.rng.pick(&[LProto::Http, LProto::Tcp, LProto::Udp, LProto::Https]);
+                let l = g.listener(p, a, true);
+                m.listeners.push(l);
+            }
+            if total % 2 == 1 {
+                m.global.insert("disable_cluster_metrics", Tv::B(true));
+            }
+        }
+        _ => {
+            // one HTTP listener (not activated), one cluster, frontends only: 2 + (total - 2)
+            m.global.insert("activate_listeners", Tv::B(false));
+            let a = g.addr();
+            let l = g.listener(LProto::Http, a, true);
+            let mut c = Cluster::new("fronts".to_owned(), true);
+            let mut keys = BTreeSet::new();
+            if total >= 2 {
+                for _ in 0..total - 2 {
+                    let f = g.http_frontend(&l, &mut keys);
+                    c.frontends.push(f);
+                }
+                m.listeners.push(l);
+                m.clusters.push(c);
+            } else if total == 1 {
+                m.listeners.push(l);
+            }
+        }
+    }
+    m
+}
+
+fn sweep_points(ctx: &Ctx) -> Vec<(usize, u64)> {
+    let mut v = Vec::new();
+    for t in 240..=272 {
+        for s in 0..3 {
+            v.push((t, s));
+        }
+    }
+    for t in [0usize, 1, 2, 3, 127, 128, 129, 511, 512, 513, 1023, 1024, 1025] {
+        for s in 0..3 {
+            v.push((t, s));
+        }
+    }
+    if ctx.tier.pick(false, true) {
+        for t in 65_530..=65_541 {
+            for s in 0..3 {
+                v.push((t, s));
+            }
+        }
+    }
+    v
+}
+
+fn sweep_case(run: &Run, rep: &mut Report) {
+    let pts = sweep_points(run.ctx);
+    let Some(&(total, shp)) = pts.get(run.case as usize) else { return };
+    let mut rng = Rng::for_case(run.ctx.seed, STREAM + 1, run.case);
+    let m = sweep_model(&mut rng, total, shp);
+    let p = predicted_messages(&m);
+    rep.obs(&format!("sweep_shape_{shp}"), 1);
+    if p != total {
+        rep.obs("sweep_point_off_target", 1);
+    }
+    let before = rep.observed.get("message_lists_generated").copied().unwrap_or(0);
+    let (loaded, _) = pipeline(run, rep, &mut rng, &m, None, false, true);
+    let generated = rep.observed.get("message_lists_generated").copied().unwrap_or(0) > before;
+    if (250..=260).contains(&total) || total >= 65_530 {
+        rep.obs(&format!("sweep_result.{total}.{}", if generated { "messages_generated" } else { "no_message_list" }), 1);
+    }
+    if let Loaded::Rejected(e) = loaded {
+        rep.obs("valid_files_refused_by_loader", 1);
+        rep.sample(json!({"case": run.case, "label": run.label, "refused_valid_file": e}));
+    }
+    rep.case_bytes(&shape(&m, &[1, shp as u8]), total > 0);
+}
+
+// ---------------------------------------------------------------------------------------------
+// workload 3: constraint neighbours — a valid model with exactly one constraint violated
+
+#[derive(Clone, Copy, PartialEq, Eq, Debug)]
+enum Demand {
+    /// the documentation (or a load-time error message of config.rs) states the constraint: the
+    /// loader must return Err
+    MustErr,
+    /// the constraint is not documented as a load error: Err is fine, acceptance is fine when
+    /// the resulting configuration is complete (all messages accepted, declared == loaded)
+    ErrOrComplete,
+}
+
+const CLASSES: &[(&str, Demand)] = &[
+    ("unknown_listener_protocol", Demand::MustErr),
+    ("unknown_cluster_protocol", Demand::MustErr),
+    ("h2_listener_buffer_size_too_small", Demand::MustErr),
+    ("h2_default_alpn_buffer_size_too_small", Demand::MustErr),
+    ("hsts_on_http_listener", Demand::MustErr),
+    ("hsts_on_http_frontend", Demand::MustErr),
+    ("hsts_without_enabled_listener", Demand::MustErr),
+    ("hsts_without_enabled_frontend", Demand::MustErr),
+    ("duplicate_listener_address", Demand::MustErr),
+    ("invalid_alpn_protocol", Demand::MustErr),
+    ("https_frontend_without_certificate", Demand::MustErr),
+    ("certificate_on_http_listener_frontend", Demand::MustErr),
+    ("http_frontend_on_tcp_listener", Demand::MustErr),
+    ("http_frontend_on_udp_listener", Demand::MustErr),
+    ("tcp_frontend_on_http_listener", Demand::MustErr),
+    ("tcp_frontend_with_hostname", Demand::MustErr),
+    ("tcp_frontend_with_path", Demand::MustErr),
+    ("tcp_frontend_with_certificate", Demand::MustErr),
+    ("http_frontend_without_hostname", Demand::MustErr),
+    ("listener_without_protocol", Demand::MustErr),
+    ("public_address_with_expect_proxy", Demand::MustErr),
+    ("tcp_cluster_mixed_expect_proxy", Demand::MustErr),
+    ("disable_http11_with_http11_alpn", Demand::MustErr),
+    ("udp_listener_expect_proxy", Demand::MustErr),
+    ("invalid_sozu_id_header", Demand::MustErr),
+    ("invalid_redirect_policy", Demand::MustErr),
+    ("invalid_redirect_scheme", Demand::MustErr),
+    ("invalid_header_position", Demand::MustErr),
+    ("header_value_with_crlf", Demand::MustErr),
+    ("automatic_state_save_without_saved_state", Demand::MustErr),
+    ("frontend_certificate_file_missing", Demand::MustErr),
+    ("listener_answer_file_missing", Demand::MustErr),
+    ("frontend_without_listener_http", Demand::ErrOrComplete),
+    ("frontend_without_listener_https", Demand::ErrOrComplete),
+    ("frontend_without_listener_tcp", Demand::ErrOrComplete),
+    ("health_check_uri_without_slash", Demand::ErrOrComplete),
+    ("health_check_zero_interval", Demand::ErrOrComplete),
+    ("duplicate_route_two_clusters", Demand::ErrOrComplete),
+    ("duplicate_route_same_cluster", Demand::ErrOrComplete),
+    ("hsts_on_https_frontend_using_listener_certificate", Demand::ErrOrComplete),
+    ("listener_certificate_file_missing", Demand::ErrOrComplete),
+    ("cluster_answer_503_file_missing", Demand::ErrOrComplete),
+];
+
+/// a small valid base that has one listener of every protocol (HTTPS without default
+/// certificate), one HTTP cluster with a frontend on the HTTP and on the HTTPS listener, one TCP
+/// cluster on the TCP listener, one on the UDP listener
+fn base_model(rng: &mut Rng) -> Model {
+    let density = *rng.pick(&[0u64, 20, 50]);
+    let mut m = valid_model(rng, Sizes { listeners: 0, clusters: 0, max_fronts: 0, max_backends: 0, density });
+    m.global.remove("buffer_size");
+    let mut g = Gen::new(rng, density);
+    for p in [LProto::Http, LProto::Https, LProto::Tcp, LProto::Udp] {
+        let a = g.addr();
+        let mut l = g.listener(p, a, true);
+        l.cert = None;
+        l.hsts = None;
+        l.opts.remove("expect_proxy");
+        l.opts.remove("disable_http11");
+        m.listeners.push(l);
+    }
+    let mut keys = BTreeSet::new();
+    let mut web = Cluster::new("web".to_owned(), true);
+    for li in [0usize, 1] {
+        let mut f = g.http_frontend(&m.listeners[li], &mut keys);
+        f.hsts = None;
+        web.frontends.push(f);
+    }
+    let b = g.backend(None);
+    web.backends.push(b);
+    let mut raw = Cluster::new("raw".to_owned(), false);
+    raw.frontends.push(Frontend::new(m.listeners[2].addr));
+    let b = g.backend(None);
+    raw.backends.push(b);
+    let mut dns = Cluster::new("dns".to_owned(), false);
+    dns.frontends.push(Frontend::new(m.listeners[3].addr));
+    let b = g.backend(None);
+    dns.backends.push(b);
+    m.clusters = vec![web, raw, dns];
+    m
+}
+
+fn mutate(rng: &mut Rng, class: &str, m: &mut Model) {
+    let spare: SocketAddr = "127.200.0.1:4999".parse().unwrap();
+    match class {
+        "unknown_listener_protocol" => {
+            let i = rng.usize_below(4);
+            m.listeners[i].proto_text = Some((*rng.pick(&["quic", "HTTP", "h2", "ftp", ""])).to_owned());
+        }
+        "unknown_cluster_protocol" => {
+            let i = rng.usize_below(3);
+            m.clusters[i].proto_text = (*rng.pick(&["https", "udp", "HTTP", "grpc"])).to_owned();
+        }
+        "h2_listener_buffer_size_too_small" => {
+            m.listeners[1].opts.insert("alpn_protocols", Tv::L(rng.pick(&[vec!["h2".to_owned()], vec!["h2".to_owned(), "http/1.1".to_owned()], vec!["http/1.1".to_owned(), "h2".to_owned()]]).clone()));
+            m.global.insert("buffer_size", Tv::I(*rng.pick(&[16_392u64, 16_384, 8_192, 1, 0])));
+        }
+        "h2_default_alpn_buffer_size_too_small" => {
+            m.listeners[1].opts.remove("alpn_protocols");
+            m.global.insert("buffer_size", Tv::I(*rng.pick(&[16_392u64, 16_384, 4_096])));
+        }
+        "hsts_on_http_listener" => {
+            m.listeners[0].hsts = Some(Hsts { enabled: Some(true), ..Default::default() });
+            m.listeners[0].hsts_syntax = if rng.bool() { Syntax::Table } else { Syntax::Inline };
+        }
+        "hsts_on_http_frontend" => {
+            m.clusters[0].frontends[0].hsts = Some(Hsts { enabled: Some(true), max_age: Some(31_536_000), ..Default::default() });
+            m.clusters[0].fronts_inline = rng.bool();
+        }
+        "hsts_without_enabled_listener" => {
+            m.listeners[1].hsts = Some(Hsts { max_age: Some(31_536_000), include_subdomains: Some(true), ..Default::default() });
+            m.listeners[1].hsts_syntax = if rng.bool() { Syntax::Table } else { Syntax::Inline };
+        }
+        "hsts_without_enabled_frontend" => {
+            m.clusters[0].frontends[1].cert = Some(0);
+            m.clusters[0].frontends[1].hsts = Some(Hsts { max_age: Some(600), ..Default::default() });
+        }
+        "duplicate_listener_address" => {
+            let i = rng.usize_below(4);
+            let j = rng.usize_below(4);
+            let mut l = m.listeners[j].clone();
+            l.addr = m.listeners[i].addr;
+            m.listeners.push(l);
+        }
+        "invalid_alpn_protocol" => {
+            m.listeners[1].opts.insert("alpn_protocols", Tv::L(rng.pick(&[vec!["h3".to_owned()], vec!["h2".to_owned(), "spdy/3".to_owned()], vec!["HTTP/1.1".to_owned()]]).clone()));
+        }
+        "https_frontend_without_certificate" => {
+            m.clusters[0].frontends[1].cert = None;
+        }
+        "certificate_on_http_listener_frontend" => {
+            m.clusters[0].frontends[0].cert = Some(rng.usize_below(CERT_FILES.len()));
+        }
+        "http_frontend_on_tcp_listener" => m.clusters[0].frontends[0].addr = m.listeners[2].addr,
+        "http_frontend_on_udp_listener" => m.clusters[0].frontends[0].addr = m.listeners[3].addr,
+        "tcp_frontend_on_http_listener" => {
+            let i = rng.usize_below(2);
+            m.clusters[1].frontends[0].addr = m.listeners[i].addr;
+        }
+        "tcp_frontend_with_hostname" => m.clusters[1].frontends[0].hostname = Some("x.example.com".to_owned()),
+        "tcp_frontend_with_path" => m.clusters[1].frontends[0].path = Some("/api".to_owned()),
+        "tcp_frontend_with_certificate" => m.clusters[1].frontends[0].cert = Some(0),
+        "http_frontend_without_hostname" => {
+            let i = rng.usize_below(2);
+            m.clusters[0].frontends[i].hostname = None;
+        }
+        "listener_without_protocol" => {
+            let i = rng.usize_below(4);
+            m.listeners[i].proto_text = None;
+        }
+        "public_address_with_expect_proxy" => {
+            let i = rng.usize_below(3);
+            m.listeners[i].opts.insert("public_address", Tv::S("203.0.113.7:80".to_owned()));
+            m.listeners[i].opts.insert("expect_proxy", Tv::B(true));
+        }
+        "tcp_cluster_mixed_expect_proxy" => {
+            let mut l = Listener::new(LProto::Tcp, spare);
+            l.opts.insert("expect_proxy", Tv::B(true));
+            m.listeners.push(l);
+            m.clusters[1].frontends.push(Frontend::new(spare));
+            if rng.bool() {
+                m.clusters[1].frontends.swap(0, 1);
+            }
+        }
+        "disable_http11_with_http11_alpn" => {
+            m.listeners[1].opts.insert("disable_http11", Tv::B(true));
+            if rng.bool() {
+                m.listeners[1].opts.insert("alpn_protocols", Tv::L(vec!["h2".to_owned(), "http/1.1".to_owned()]));
+            } else {
+                m.listeners[1].opts.remove("alpn_protocols");
+            }
+        }
+        "udp_listener_expect_proxy" => {
+            m.listeners[3].opts.remove("public_address");
+            m.listeners[3].opts.insert("expect_proxy", Tv::B(true));
+        }
+        "invalid_sozu_id_header" => {
+            let i = rng.usize_below(2);
+            m.listeners[i].opts.insert("sozu_id_header", Tv::S((*rng.pick(&["a b", "", "X:Id", "X-Id\r\nEvil: 1"])).to_owned()));
+        }
+        "invalid_redirect_policy" => {
+            m.clusters[0].frontends[0].opts.insert("redirect", Tv::S("teapot".to_owned()));
+        }
+        "invalid_redirect_scheme" => {
+            m.clusters[0].frontends[0].opts.insert("redirect_scheme", Tv::S("use-gopher".to_owned()));
+        }
+        "invalid_header_position" => {
+            m.clusters[0].frontends[0].headers = vec![("sideways".to_owned(), "X-A".to_owned(), "b".to_owned())];
+        }
+        "header_value_with_crlf" => {
+            m.clusters[0].frontends[0].headers = vec![("request".to_owned(), "X-A".to_owned(), "b\r\nEvil: 1".to_owned())];
+        }
+        "automatic_state_save_without_saved_state" => {
+            m.global.insert("automatic_state_save", Tv::B(true));
+        }
+        "frontend_certificate_file_missing" => {
+            m.clusters[0].frontends[1].cert = Some(0);
+            m.clusters[0].frontends[1].opts.insert("certificate", Tv::S("/nonexistent/c20/cert.pem".to_owned()));
+            m.clusters[0].frontends[1].cert = None;
+            m.clusters[0].frontends[1].opts.insert("key", Tv::S(CERT_FILES[0].1.to_owned()));
+        }
+        "listener_answer_file_missing" => {
+            let i = rng.usize_below(2);
+            m.listeners[i].legacy_answers = vec![(404, "/nonexistent/c20/404.http".to_owned(), String::new())];
+        }
+        "frontend_without_listener_http" => {
+            m.clusters[0].frontends[0].addr = spare;
+        }
+        "frontend_without_listener_https" => {
+            m.clusters[0].frontends[1].addr = spare;
+            m.clusters[0].frontends[1].cert = Some(rng.usize_below(CERT_FILES.len()));
+        }
+        "frontend_without_listener_tcp" => {
+            m.clusters[1].frontends[0].addr = spare;
+        }
+        "health_check_uri_without_slash" => {
+            m.clusters[0].health_check = Some(("health".to_owned(), Opts::new()));
+        }
+        "health_check_zero_interval" => {
+            let mut o = Opts::new();
+            o.insert(*rng.pick(&["interval", "timeout", "healthy_threshold", "unhealthy_threshold"]), Tv::I(0));
+            m.clusters[0].health_check = Some(("/health".to_owned(), o));
+        }
+        "duplicate_route_two_clusters" => {
+            let mut c = Cluster::new("web2".to_owned(), true);
+            let i = rng.usize_below(2);
+            c.frontends.push(m.clusters[0].frontends[i].clone());
+            m.clusters.push(c);
+        }
+        "duplicate_route_same_cluster" => {
+            let i = rng.usize_below(2);
+            let mut f = m.clusters[0].frontends[i].clone();
+            f.position = Some(rng.below(3) as u8);
+            m.clusters[0].frontends.push(f);
+        }
+        "hsts_on_https_frontend_using_listener_certificate" => {
+            m.listeners[1].cert = Some(1);
+            m.clusters[0].frontends[1].cert = None;
+            m.clusters[0].frontends[1].hsts = Some(Hsts { enabled: Some(true), ..Default::default() });
+        }
+        "listener_certificate_file_missing" => {
+            m.listeners[1].cert = Some(0);
+            m.listeners[1].cert_path_override = Some("/nonexistent/c20/default.pem".to_owned());
+            m.clusters[0].frontends[1].cert = Some(2);
+        }
+        "cluster_answer_503_file_missing" => {
+            m.clusters[0].answer_503 = Some(("/nonexistent/c20/503.http".to_owned(), String::new()));
+        }
+        _ => {}
+    }
+}
+
+fn neighbour_case(run: &Run, rep: &mut Report) {
+    let mut rng = Rng::for_case(run.ctx.seed, STREAM + 2, run.case);
+    let (class, demand) = CLASSES[(run.case as usize) % CLASSES.len()];
+    let mut m = base_model(&mut rng);
+    // the unmodified base must load: checked on a share of the cases so that a rejection below
+    // is attributable to the violated constraint
+    if run.case % 7 == 0 {
+        let (l, toml) = pipeline(run, rep, &mut rng.clone(), &m, None, false, true);
+        match l {
+            Loaded::Accepted => rep.obs("neighbour_base_accepted", 1),
+            Loaded::Rejected(e) => {
+                rep.broken(&format!("neighbour base model refused by the loader ({e}); first lines: {}", toml.chars().take(300).collect::<String>()));
+            }
+            Loaded::Aborted => {}
+        }
+    }
+    mutate(&mut rng, class, &mut m);
+    rep.obs(&format!("neighbour_tried.{class}"), 1);
+    let judge = demand == Demand::ErrOrComplete && !class.ends_with("_file_missing");
+    let (loaded, toml) = pipeline(run, rep, &mut rng, &m, Some(class), true, judge);
+    match (&loaded, demand) {
+        (Loaded::Rejected(e), _) => {
+            rep.obs(&format!("neighbour_rejected.{class}"), 1);
+            rep.obs("neighbours_rejected_at_load", 1);
+            if run.case < CLASSES.len() as u64 {
+                rep.sample(json!({"neighbour": class, "load_error": e}));
+            }
+        }
+        (Loaded::Accepted, Demand::MustErr) => {
+            rep.obs(&format!("neighbour_accepted.{class}"), 1);
+            rep.violation(
+                &format!("constraint_accepted/{class}"),
+                &format!("a file violating the documented constraint '{class}' was accepted by load_from_path instead of being rejected at load time"),
+                run.witness(&m, &toml, json!({"class": class})),
+            );
+        }
+        (Loaded::Accepted, Demand::ErrOrComplete) => {
+            rep.obs(&format!("neighbour_accepted.{class}"), 1);
+            rep.obs("exempt.neighbour_accepted_not_documented_as_error", 1);
+            if class.ends_with("_file_missing") {
+                // the loader logs an error ("cannot load certificate at path ...") and goes on
+                // without the item: not silent, and not documented as fatal — not judged
+                rep.obs("exempt.unreadable_file_logged_and_skipped", 1);
+            }
+        }
+        (Loaded::Aborted, _) => {}
+    }
+    rep.case_bytes(&shape(&m, &[2, (run.case as usize % CLASSES.len()) as u8]), true);
+}
+
+// ---------------------------------------------------------------------------------------------
+
+struct Silence {
+    saved: i32,
+}
+
+impl Silence {
+    /// sozu prints the whole file to stdout on a TOML error (`display_toml_error`): keep the
+    /// check's own output readable
+    fn new() -> Silence {
+        let _ = std::io::stdout().flush();
+        unsafe {
+            let saved = libc::dup(1);
+            let null = libc::open(c"/dev/null".as_ptr(), libc::O_WRONLY);
+            if saved >= 0 && null >= 0 {
+                libc::dup2(null, 1);
+                libc::close(null);
+            }
+            Silence { saved }
+        }
+    }
+}
+
+impl Drop for Silence {
+    fn drop(&mut self) {
+        let _ = std::io::stdout().flush();
+        unsafe {
+            if self.saved >= 0 {
+                libc::dup2(self.saved, 1);
+                libc::close(self.saved);
+            }
+        }
+    }
+}
+
+fn run_label(ctx: &Ctx, dir: &Path, label: &str, case: u64, rep: &mut Report) {
+    let run = Run { ctx, dir, label, case };
+    let t0 = std::time::Instant::now();
+    match label {
+        "sweep" => sweep_case(&run, rep),
+        "neighbour" => neighbour_case(&run, rep),
+        _ => valid_case(&run, rep),
+    }
+    let ms = t0.elapsed().as_millis() as u64;
+    rep.obs_max(&format!("case_ms.{label}"), ms);
+    rep.obs(&format!("case_ms_total.{label}"), ms);
+}
+
+fn probe(path: &str, rep: &mut Report) {
+    rep.case(0, true);
+    let r = guard(|| -> Result<String, String> {
+        let c = Config::load_from_path(path).map_err(|e| format!("load_from_path: Err({e})"))?;
+        let msgs = c.generate_config_messages().map_err(|e| format!("generate_config_messages: Err({e})"))?;
+        let mut st = ConfigState::new();
+        let mut out = format!("loaded; {} messages\n", msgs.len());
+        for w in &msgs {
+            if let Err(e) = st.dispatch(&w.content) {
+                out.push_str(&format!("  {} {} REJECTED: {e}\n", w.id, request_name(&w.content.request_type)));
+            }
+        }
+        out.push_str(&format!(
+            "state: {} http / {} https / {} tcp / {} udp listeners, {} clusters, {} http + {} https fronts, {} backends, {} certificates\n",
+            st.http_listeners.len(), st.https_listeners.len(), st.tcp_listeners.len(), st.udp_listeners.len(), st.clusters.len(),
+            st.http_fronts.len(), st.https_fronts.len(), st.backends.values().map(|v| v.len()).sum::<usize>(), st.certificates.values().map(|v| v.len()).sum::<usize>()
+        ));
+        for (a, l) in &st.https_listeners {
+            out.push_str(&format!("  https listener {a}: hsts = {:?}, sozu_id_header = {:?}\n", l.hsts, l.sozu_id_header));
+        }
+        Ok(out)
+    });
+    match r {
+        Ok(Ok(s)) => eprintln!("{s}"),
+        Ok(Err(e)) => eprintln!("{e}"),
+        Err(p) => eprintln!("PANIC: {} at {}", p.message, p.location),
+    }
+}
+
+pub fn run(ctx: &Ctx) -> Report {
+    let mut rep = Report::new(
+        "exploration",
+        "an abstract model (listeners of every protocol on IPv4/IPv6 with optional knobs present or absent, HTTP/TCP/UDP clusters with overrides, frontends with hostname/path/path_type/method/position/tags/certificates/HSTS/redirects, backends) is generated first, rendered as TOML (inline and table syntaxes), loaded with Config::load_from_path, turned into messages and replayed on a fresh ConfigState as load_static_config does; the state is compared field by field with the model and the documented defaults, the file is loaded a second time over the state, and neighbours violating exactly one documented constraint must be refused; three workloads: random valid files (sizes 0..hundreds, thorough thousands, steered across 255/256/257 messages), an exhaustive sweep of the total message count 240..272 (thorough also 65530..65541) in three shapes, and 42 constraint-neighbour classes; non-trivial = at least one listener and one cluster (or a neighbour); distinct = distinct (log-size, protocol set, option count, class) shapes",
+    );
+    rep.assume("defaults are transcribed from doc/configure.md, doc/health_checks.md and the comments of bin/config.toml; a field left unset whose default the documentation does not state is not judged (exempt.* counters)");
+    rep.assume("`request_counts` (a census of received requests) is not configuration: it is cleared before the reload comparison");
+    rep.assume("for `optional` wire fields an absent value is accepted where the documentation gives a compile-time default (absent = default)");
+    rep.assume("a frontend whose address has no declared listener, invalid health-check values and duplicate routes are not documented as load errors: refusal and complete acceptance are both accepted, only a partial configuration is a violation");
+    if ctx.replay.is_none() && ctx.opt("probe").is_none() {
+    for k in [
+        "files_over_255_messages",
+        "msgs:255",
+        "msgs:256",
+        "msgs:257",
+        "idempotence_checks",
+        "default_comparisons",
+        "set_field_comparisons",
+        "listeners_compared",
+        "clusters_compared",
+        "frontends_compared",
+        "backends_compared",
+        "certificates_compared",
+        "objects.http_listener",
+        "objects.https_listener",
+        "objects.tcp_listener",
+        "objects.udp_listener",
+        "objects.http_frontend",
+        "objects.https_frontend",
+        "objects.tcp_frontend",
+        "objects.udp_frontend",
+        "listener_ipv6",
+        "path_rule.regex",
+        "path_rule.equals",
+        "path_rule.prefix",
+        "listeners_expected_inactive",
+        "neighbours_rejected_at_load",
+    ] {
+        rep.require(k);
+    }
+    for (c, _) in CLASSES {
+        rep.require(&format!("neighbour_tried.{c}"));
+    }
+    }
+    let dir = ctx.root.join(format!("build/run-C20-{}", std::process::id()));
+    if let Err(e) = std::fs::create_dir_all(&dir) {
+        rep.broken(&format!("cannot create {}: {e}", dir.display()));
+        return rep;
+    }
+    if let Some(p) = ctx.opt("probe") {
+        // manual aid: `vh C20 --opt probe=/path/file.toml` replays one hand-written file
+        probe(p, &mut rep);
+        let _ = std::fs::remove_dir_all(&dir);
+        return rep;
+    }
+    let silence = Silence::new();
+    if let Some(path) = &ctx.replay {
+        let v: Value = serde_json::from_str(&std::fs::read_to_string(path).unwrap_or_default()).unwrap_or(Value::Null);
+        if let Some(ws) = v["witnesses"].as_array() {
+            for w in ws {
+                if let Some(c) = w["case"].as_u64() {
+                    let label = w["label"].as_str().unwrap_or("valid").to_owned();
+                    run_label(ctx, &dir, &label, c, &mut rep);
+                }
+            }
+        }
+    } else {
+        let n_sweep = sweep_points(ctx).len() as u64;
+        let n_valid = ctx.opt_u64("cases", ctx.tier.pick(3_000, 60_000));
+        let n_neigh = ctx.opt_u64("neighbours", ctx.tier.pick(1_260, 25_200));
+        par_cases_named(ctx, &mut rep, n_sweep, "sweep", |i, r| run_label(ctx, &dir, "sweep", i, r));
+        par_cases_named(ctx, &mut rep, n_neigh, "neighbour", |i, r| run_label(ctx, &dir, "neighbour", i, r));
+        par_cases_named(ctx, &mut rep, n_valid, "valid", |i, r| run_label(ctx, &dir, "valid", i, r));
+    }
+    drop(silence);
+    let _ = std::fs::remove_dir_all(&dir);
     rep
 }
